@@ -641,6 +641,225 @@ theorem hashInputTls_wire (fr : Framing) (p : Bytes) (e : Ep) (hw : wireEndpoint
   · obtain ⟨hn, hlen, hp, rfl⟩ := wireV6_some _ _ h
     exact hashTls_v6 p (ipStart p) rfl hn (by omega) hp
 
+
+theorem beNat_append_one (b : Bytes) (x : UInt8) : beNat (b ++ [x]) = beNat b * 256 + x.toNat := by
+  simp [beNat, List.foldl_append]
+
+theorem beNat_foldl (b : Bytes) (acc : Nat) :
+    b.foldl (fun a x => a * 256 + x.toNat) acc = acc * 256 ^ b.length + beNat b := by
+  induction b generalizing acc with
+  | nil => simp [beNat]
+  | cons x xs ih =>
+    simp only [List.foldl_cons, List.length_cons, beNat]
+    rw [ih, ih (0 * 256 + x.toNat)]
+    rw [Nat.pow_succ]
+    simp [Nat.add_mul, Nat.mul_assoc, Nat.mul_comm 256, Nat.add_assoc]
+
+theorem beNat_cons (x : UInt8) (xs : Bytes) : beNat (x :: xs) = x.toNat * 256 ^ xs.length + beNat xs := by
+  simp only [beNat, List.foldl_cons]
+  rw [beNat_foldl]; simp [beNat]
+
+theorem beNat_lt (b : Bytes) : beNat b < 256 ^ b.length := by
+  induction b with
+  | nil => simp [beNat]
+  | cons x xs ih =>
+    rw [beNat_cons, List.length_cons, Nat.pow_succ]
+    have hx := UInt8.toNat_lt x
+    have : x.toNat * 256 ^ xs.length + 256 ^ xs.length ≤ 256 ^ xs.length * 256 := by
+      have : (x.toNat + 1) * 256 ^ xs.length ≤ 256 * 256 ^ xs.length :=
+        Nat.mul_le_mul_right _ (by omega)
+      rw [Nat.add_mul, Nat.one_mul] at this
+      rw [Nat.mul_comm (256 ^ xs.length) 256]; exact this
+    omega
+
+theorem beNat_inj (a b : Bytes) (hl : a.length = b.length) (h : beNat a = beNat b) : a = b := by
+  induction a generalizing b with
+  | nil => cases b with | nil => rfl | cons _ _ => simp at hl
+  | cons x xs ih =>
+    cases b with
+    | nil => simp at hl
+    | cons y ys =>
+      simp only [List.length_cons, Nat.add_right_cancel_iff] at hl
+      rw [beNat_cons, beNat_cons, hl] at h
+      have h1 := beNat_lt xs
+      have h2 := beNat_lt ys
+      rw [hl] at h1
+      have hpos : 0 < 256 ^ ys.length := Nat.pow_pos (by decide)
+      have hx : x.toNat = y.toNat := by
+        have e1 : (x.toNat * 256 ^ ys.length + beNat xs) / 256 ^ ys.length = x.toNat := by
+          rw [Nat.mul_comm, Nat.mul_add_div hpos, Nat.div_eq_of_lt h1]; simp
+        have e2 : (y.toNat * 256 ^ ys.length + beNat ys) / 256 ^ ys.length = y.toNat := by
+          rw [Nat.mul_comm, Nat.mul_add_div hpos, Nat.div_eq_of_lt h2]; simp
+        rw [← e1, ← e2, h]
+      have hr : beNat xs = beNat ys := by rw [hx] at h; omega
+      rw [UInt8.toNat_inj.1 hx, ih ys hl hr]
+
+theorem slice_length (b : Bytes) (i n : Nat) (h : i + n ≤ b.length) : (slice b i n).length = n := by
+  unfold slice; simp; omega
+
+/-- the addresses an accepted view reports have 4 / 16 bytes -/
+theorem view_addr_lengths (p : Bytes) (v : View) (hb : baseView p = some v) :
+    v.ep.src.length = (match v.ep.ver with | .v4 => 4 | .v6 => 16) ∧
+    v.ep.dst.length = (match v.ep.ver with | .v4 => 4 | .v6 => 16) := by
+  obtain ⟨l, _, hproto, hpl, rfl⟩ := baseView_some p v hb
+  obtain ⟨fr, ver, ip⟩ := l
+  cases ver with
+  | v4 =>
+    simp only [Located.proto, Located.payload] at hproto hpl
+    obtain ⟨h40, _, _⟩ := view_v4_facts ip hproto hpl
+    simp only [View.ep, Located.src, Located.dst]
+    exact ⟨slice_length _ _ _ (by omega), slice_length _ _ _ (by omega)⟩
+  | v6 =>
+    simp only [Located.proto, Located.payload] at hproto hpl
+    obtain ⟨h60, _⟩ := view_v6_facts ip hproto hpl
+    simp only [View.ep, Located.src, Located.dst]
+    exact ⟨slice_length _ _ _ (by omega), slice_length _ _ _ (by omega)⟩
+
+theorem extractV4_some (ip : Bytes) (e : Ep) (h : extractV4 ip = some e) :
+    e.ver = .v4 ∧ e.src.length = 4 ∧ e.dst.length = 4 := by
+  unfold extractV4 at h
+  split at h; · simp at h
+  split at h; · simp at h
+  split at h; · simp at h
+  rename_i h20 _ _
+  simp at h; rw [← h]
+  exact ⟨rfl, slice_length _ _ _ (by omega), slice_length _ _ _ (by omega)⟩
+
+theorem extractV6_some (ip : Bytes) (e : Ep) (h : extractV6 ip = some e) :
+    e.ver = .v6 ∧ e.src.length = 16 ∧ e.dst.length = 16 := by
+  unfold extractV6 at h
+  split at h; · simp at h
+  split at h; · simp at h
+  split at h; · simp at h
+  rename_i h40 _ _
+  simp at h; rw [← h]
+  exact ⟨rfl, slice_length _ _ _ (by omega), slice_length _ _ _ (by omega)⟩
+
+theorem rawFilterExtract_lengths (p : Bytes) (e : Ep) (h : rawFilterExtract p = some e) :
+    e.src.length = (match e.ver with | .v4 => 4 | .v6 => 16) ∧
+    e.dst.length = (match e.ver with | .v4 => 4 | .v6 => 16) := by
+  have key : ∀ ip, (extractV4 ip = some e ∨ extractV6 ip = some e) →
+      e.src.length = (match e.ver with | .v4 => 4 | .v6 => 16) ∧
+      e.dst.length = (match e.ver with | .v4 => 4 | .v6 => 16) := by
+    intro ip hh
+    rcases hh with hh | hh
+    · obtain ⟨a, b, c⟩ := extractV4_some ip e hh; rw [a]; exact ⟨b, c⟩
+    · obtain ⟨a, b, c⟩ := extractV6_some ip e hh; rw [a]; exact ⟨b, c⟩
+  unfold rawFilterExtract at h
+  split at h
+  · rename_i e' he
+    simp at h; subst h
+    unfold rfEthernet at he
+    split at he; · simp at he
+    split at he; · exact key _ (Or.inl he)
+    split at he; · exact key _ (Or.inr he)
+    simp at he
+  · split at h
+    · rename_i e' he
+      simp at h; subst h
+      unfold rfRawIp at he
+      split at he; · simp at he
+      split at he; · exact key _ (Or.inl he)
+      split at he; · exact key _ (Or.inr he)
+      simp at he
+    · unfold rfNull at h
+      split at h; · simp at h
+      split at h; · exact key _ (Or.inl h)
+      split at h; · exact key _ (Or.inr h)
+      simp at h
+
+open Huginn.Filter in
+section
+
+def AddrLens (e : Ep) : Prop :=
+  e.src.length = (match e.ver with | .v4 => 4 | .v6 => 16) ∧
+  e.dst.length = (match e.ver with | .v4 => 4 | .v6 => 16)
+
+/-- a filter that rejects exactly the traffic from `e`'s source address -/
+def denySrcOf (e : Ep) : Config :=
+  { ip := some { v4 := [beNat e.src], v6 := [beNat e.src], checkSrc := true, checkDst := false },
+    mode := .deny }
+
+theorem denySrcOf_rejects (e : Ep) : e.admittedBy (denySrcOf e) = false := by
+  obtain ⟨ver, src, dst, sp, dp⟩ := e
+  cases ver <;>
+    simp [Ep.admittedBy, denySrcOf, Config.shouldProcess, mkAddr, IpFilter.matches, IpFilter.side]
+
+def allowSrcPort (n : Nat) : Config := { port := some { srcPorts := [n] } }
+def allowDstPort (n : Nat) : Config := { port := some { dstPorts := [n] } }
+def allowSrcAddr (v : IpVer) (b : Bytes) : Config :=
+  { ip := some { v4 := (match v with | .v4 => [beNat b] | .v6 => []),
+                 v6 := (match v with | .v4 => [] | .v6 => [beNat b]), checkSrc := true, checkDst := false } }
+def allowDstAddr (v : IpVer) (b : Bytes) : Config :=
+  { ip := some { v4 := (match v with | .v4 => [beNat b] | .v6 => []),
+                 v6 := (match v with | .v4 => [] | .v6 => [beNat b]), checkSrc := false, checkDst := true } }
+
+/-- Two different endpoint tuples (with proper address lengths) are told apart by some filter. -/
+theorem exists_separating_filter (e e' : Ep) (he : AddrLens e) (he' : AddrLens e') (hne : e ≠ e') :
+    ∃ c : Config, e.admittedBy c ≠ e'.admittedBy c := by
+  obtain ⟨ver, src, dst, sp, dp⟩ := e
+  obtain ⟨ver', src', dst', sp', dp'⟩ := e'
+  simp only [AddrLens] at he he'
+  by_cases hsp : sp = sp'
+  · by_cases hdp : dp = dp'
+    · by_cases hv : ver = ver'
+      · subst hv hsp hdp
+        by_cases hs : src = src'
+        · subst hs
+          have hd : dst ≠ dst' := by
+            intro h; subst h; exact hne rfl
+          have : beNat dst ≠ beNat dst' := fun h => hd (beNat_inj _ _ (by rw [he.2, he'.2]) h)
+          refine ⟨allowDstAddr ver dst, ?_⟩
+          cases ver <;>
+            simp [Ep.admittedBy, allowDstAddr, Config.shouldProcess, mkAddr, IpFilter.matches,
+              IpFilter.side, Ne.symm this]
+        · have : beNat src ≠ beNat src' := fun h => hs (beNat_inj _ _ (by rw [he.1, he'.1]) h)
+          refine ⟨allowSrcAddr ver src, ?_⟩
+          cases ver <;>
+            simp [Ep.admittedBy, allowSrcAddr, Config.shouldProcess, mkAddr, IpFilter.matches,
+              IpFilter.side, Ne.symm this]
+      · refine ⟨allowSrcAddr ver src, ?_⟩
+        cases ver <;> cases ver' <;>
+          simp_all [Ep.admittedBy, allowSrcAddr, Config.shouldProcess, mkAddr, IpFilter.matches,
+            IpFilter.side]
+    · refine ⟨allowDstPort dp, ?_⟩
+      simp [Ep.admittedBy, allowDstPort, Config.shouldProcess, PortFilter.matches, Ne.symm hdp]
+  · refine ⟨allowSrcPort sp, ?_⟩
+    simp [Ep.admittedBy, allowSrcPort, Config.shouldProcess, PortFilter.matches, Ne.symm hsp]
+
+theorem analyzerEndpoints_lens (a : Analyzer) (p : Bytes) (e : Ep) (h : analyzerEndpoints a p = some e) :
+    AddrLens e := by
+  unfold analyzerEndpoints at h
+  cases hv : analyzerView a p with
+  | none => simp [hv] at h
+  | some v =>
+    simp [hv] at h; subst h
+    exact view_addr_lengths p v (analyzerView_base a p v hv)
+
+/-- **Agreement of the decoders is necessary**: on a frame where they disagree some filter gives
+the raw frame a verdict different from the verdict on the frame's own endpoints. -/
+theorem exists_filter_of_not_agree (a : Analyzer) (p : Bytes) (h : ¬ Agree a p) :
+    ∃ c : Config, ¬ AgreeFor a c p := by
+  unfold Agree at h
+  cases he : analyzerEndpoints a p with
+  | none => simp [he] at h
+  | some e =>
+    simp only [he, not_or] at h
+    cases hr : rawFilterExtract p with
+    | none =>
+      refine ⟨denySrcOf e, ?_⟩
+      simp [AgreeFor, he, rawFilterApply, hr, ownAdmits, denySrcOf_rejects]
+    | some e' =>
+      have hne : e ≠ e' := by
+        intro hh; apply h.2; rw [hr, hh]
+      obtain ⟨c, hc⟩ := exists_separating_filter e e' (analyzerEndpoints_lens a p e he)
+        (rawFilterExtract_lengths p e' hr) hne
+      refine ⟨c, ?_⟩
+      simp only [AgreeFor, he, rawFilterApply, hr, ownAdmits, not_or]
+      exact ⟨by simp, fun hh => hc hh.symm⟩
+
+end
+
 end Huginn.Wire
 
 /-! ### witness frames (also the first cases of the correspondence run) -/
